@@ -34,7 +34,12 @@ TECHNIQUE = ("Lean 4 model of SelectChoiceValidator.validate, Question._validate
 LEVEL_TEXT = "proof (model) + exhaustive small-scope correspondence"
 LEVEL_NOTE = ("theorems are about the hand-written model Clikit.Question; its fidelity to the Python code is what the "
               "correspondence samples (all scripts up to 3/4 lines over the adversarial alphabet). The stty/autocomplete "
-              "path and hidden questions are not modelled.")
+              "path and hidden questions are not modelled. Hypotheses: everything the interchangeability theorems take about "
+              "the index text str(i) is proved for the model of int() (pyInt_toDigits, toDigits_typable); the remaining side "
+              "condition (value occurs once, index text not a choice, value can be typed) is the executable interchangeHypB, "
+              "answered by the model for every (list, index) pair and compared with the same condition evaluated by Python "
+              "(interchange_dec is the theorem the oracle demands there); 'the prompt can be built' (promptOkB) is compared on "
+              "every ask case with whether the real ChoiceQuestion._write_prompt raises.")
 LEAN_MODULES = ["Clikit.Props.C18"]
 REQUIRED_THEOREMS = ["Clikit.Props.C18." + t for t in (
     "choice_member", "validate_error_classes", "valid_entry_iff", "ask_member",
@@ -43,7 +48,9 @@ REQUIRED_THEOREMS = ["Clikit.Props.C18." + t for t in (
     "empty_line_is_default", "invalid_prefix", "attempts_exact_fail", "attempts_zero", "attempts_exact_value",
     "terminates_at_eof", "unlimited_all_invalid_aborts", "all_invalid_waits", "prompt_failure", "ask_outcome_cases",
     "fuel_suffices", "never_out_of_fuel", "pre_repair_loop_never_terminates",
-    "noninteractive", "confirm_iff", "confirm_eof", "matchYes_iff")]
+    "noninteractive", "confirm_iff", "confirm_eof", "matchYes_iff",
+    "hyps_decide", "index_value_interchangeable_ask_pyInt", "index_value_interchangeable_multi_pyInt",
+    "index_value_interchangeable_multi_ask", "interchange_dec", "ask_outcome_cases_dec")]
 RULE = ("ask: choice lists (1-5 entries: plain, numeric-looking, duplicated, spaced, case-differing) x single/multi x "
         "defaults x limits {None,0,1,2,3} x ALL scripts up to 3 lines (quick) / 4 lines (thorough, limit None|3) over a "
         "14-answer adversarial alphabet x {end of input, blocking stream} + random longer dialogues over a wider alphabet; "
@@ -221,6 +228,30 @@ def _jsonable(v):
     return {"repr": repr(v)}
 
 
+def _prompt_ok(make_question):
+    """can the REAL question build its prompt?  (the hypothesis `promptCheck = ok` of the attempt theorems, decided by
+    the model as promptOkB and compared)"""
+    from clikit.io.buffered_io import BufferedIO
+    try:
+        make_question()._write_prompt(BufferedIO())
+        return True
+    except Exception:
+        return False
+
+
+def _interchange_applies(case):
+    """the side condition of 'an index and the value it denotes are interchangeable' (Props.C18.interchange_dec,
+    decided by the model as interchangeHypB), evaluated with Python's own str / bytes.strip / re"""
+    c, i = case["choices"], case["i"]
+    if c.count(c[i]) != 1 or str(i) in c:
+        return False   # the value is ambiguous, or the index text is itself a choice
+    if case["multi"]:
+        # such a value cannot be typed as one item of a multi-select answer
+        return re.match(r"[a-zA-Z0-9_-]+\Z", c[i]) is not None
+    # the line read is stripped: a value with surrounding blanks cannot be typed at all
+    return bool(c[i]) and c[i].encode("utf-8").strip() == c[i].encode("utf-8")
+
+
 def _choice_question(case):
     from clikit.ui.components.choice_question import ChoiceQuestion
 
@@ -269,6 +300,7 @@ def run_impl(case):
                         probe=bool(case.get("probe")))
         if "value" in obs["result"]:
             obs["result"]["value"] = _jsonable(obs["result"]["value"])
+        obs["prompt_ok"] = _prompt_ok(_choice_question(case))
         return obs
     if k == "interchange":
         c = case["choices"]
@@ -278,8 +310,9 @@ def run_impl(case):
             o = _dialogue(_choice_question(sub), [text], True, True, len(c), probe=True)
             if "value" in o["result"]:
                 o["result"]["value"] = _jsonable(o["result"]["value"])
+            o["prompt_ok"] = _prompt_ok(_choice_question(sub))
             res.append(o)
-        return {"by_index": res[0], "by_value": res[1]}
+        return {"by_index": res[0], "by_value": res[1], "hyp": {"hyp": _interchange_applies(case), "text": str(case["i"])}}
     if k == "confirm":
         obs = _dialogue(_confirm_question(case), case["script"], case["eof"], case["interactive"])
         if "value" in obs["result"]:
@@ -332,7 +365,8 @@ def model_requests(case):
     if k == "interchange":
         c = case["choices"]
         return [{"m": "c18.ask", "choices": c, "multi": case["multi"], "default": None, "limit": 1,
-                 "script": [t], "eof": True, "interactive": True} for t in (str(case["i"]), c[case["i"]])]
+                 "script": [t], "eof": True, "interactive": True} for t in (str(case["i"]), c[case["i"]])] + \
+               [{"m": "c18.interchange_hyp", "choices": c, "multi": case["multi"], "i": case["i"]}]
     if k == "confirm":
         return [{"m": "c18.confirm", "prefixes": case["prefixes"], "ci": case["ci"], "default": case["default"],
                  "interactive": case["interactive"], "script": case["script"], "eof": case["eof"]}]
@@ -351,7 +385,8 @@ def _model_ask(a):
     r = a["result"]
     if "default" in r:
         r = {"value": r["default"]}
-    return {"result": r, "reads": a["reads"], "errors": a["errors"], "prompts": a["prompts"]}
+    return {"result": r, "reads": a["reads"], "errors": a["errors"], "prompts": a["prompts"],
+            "prompt_ok": a["prompt_ok"]}
 
 
 def model_obs(case, answers):
@@ -359,7 +394,7 @@ def model_obs(case, answers):
     if k == "ask":
         return _model_ask(answers[0])
     if k == "interchange":
-        return {"by_index": _model_ask(answers[0]), "by_value": _model_ask(answers[1])}
+        return {"by_index": _model_ask(answers[0]), "by_value": _model_ask(answers[1]), "hyp": answers[2]}
     if k == "confirm":
         a = answers[0]
         return {"result": a["result"], "reads": a["reads"], "prompts": a["prompts"]}
@@ -369,7 +404,8 @@ def model_obs(case, answers):
 
 
 def _view_ask(o):
-    return {"result": o["result"], "reads": o["reads"], "errors": o["errors"], "prompts": o["prompts"]}
+    return {"result": o["result"], "reads": o["reads"], "errors": o["errors"], "prompts": o["prompts"],
+            "prompt_ok": o["prompt_ok"]}
 
 
 def impl_view(case, obs):
@@ -377,7 +413,7 @@ def impl_view(case, obs):
     if k == "ask":
         return _view_ask(obs)
     if k == "interchange":
-        return {"by_index": _view_ask(obs["by_index"]), "by_value": _view_ask(obs["by_value"])}
+        return {"by_index": _view_ask(obs["by_index"]), "by_value": _view_ask(obs["by_value"]), "hyp": obs["hyp"]}
     if k == "confirm":
         return {"result": obs["result"], "reads": obs["reads"], "prompts": obs["prompts"]}
     if k in ("validate", "int", "spaces", "ci"):
@@ -500,12 +536,8 @@ def _oracle_interchange(case, obs):
     for o in (obs["by_index"], obs["by_value"]):
         if "nonterminating" in o["result"]:
             return "the question did not terminate: %r" % (case,)
-    if c.count(c[i]) != 1 or str(i) in c:
-        return None   # the value is ambiguous, or the index text is itself a choice
-    if case["multi"] and not re.match(r"[a-zA-Z0-9_-]+\Z", c[i]):
-        return None   # such a value cannot be typed as one item of a multi-select answer
-    if not c[i] or c[i].encode("utf-8").strip() != c[i].encode("utf-8"):
-        return None   # the line read is stripped: a value with surrounding blanks cannot be typed at all
+    if not _interchange_applies(case):
+        return None   # ambiguous value, index text that is itself a choice, or a value that cannot be typed
     want = [c[i]] if case["multi"] else c[i]
     a, b = obs["by_index"]["result"], obs["by_value"]["result"]
     if a != {"value": want} or b != {"value": want}:
